@@ -67,7 +67,7 @@ PROPS["C16"] = dict(
 
 PROPS["C15"] = dict(
     harness="c15_objects", flavour="asan",
-    quick=dict(workers=16, cases=160000, min_nontrivial=500),
+    quick=dict(workers=16, cases=112000, min_nontrivial=500),
     thorough=dict(workers=16, cases=3000000, min_nontrivial=5000, budget_s=3000,
                   fuzz=dict(target="f15_objects", runs=100000, jobs=8, max_len=164)),
     rule="Stateful/model-based: command histories (length 0-30, whole-sequence shrinking) over a pool of 4 slots of one "
